@@ -1793,6 +1793,11 @@ func (s *BgpServer) handleFSMMessage(peer *peer, e *fsmMsg) {
 		drainChannel(peer.fsm.outgoingCh.Out())
 
 		if nextState == bgp.BGP_FSM_ESTABLISHED {
+			// Publish the new state before the initial table transfer: a route change
+			// propagated by another peer between the transfer and the FSM loop's own
+			// state.Store() would otherwise be neither part of the transfer nor sent
+			// afterwards (needToAdvertise() still saw the old state).
+			peer.fsm.state.Store(nextState)
 			conf := peer.fsm.pConf.ReadOnly()
 			peerInfo := table.NewPeerInfo(peer.fsm.gConf, conf,
 				conf.State.PeerAs, conf.Config.LocalAs,
